@@ -34,7 +34,7 @@ MIN_COUNTERS = {
     "toplevel_stream_checked": {"quick": 30000, "thorough": 300000},
     "trace_compared": {"quick": 8000, "thorough": 80000},
 }
-UNIT_TIMEOUT = 1200
+UNIT_TIMEOUT = 150
 
 ALPHABET = [
     [["el", "?"]],
